@@ -20,7 +20,14 @@ sends n open requests in a row (more than 256 = the command channel is full: `ok
 streams are never acknowledged, so beyond 256 pending requests `Control::open_stream()` does not return and only the OUTER
 timer of the request's future can answer it; `sot=` is small in those cases and a `sleep` of timeout + 500 ms follows.
 C08 pulls the area in as well (`oracle_c08`). On a `sot=` connection the driver reads WHICH outbound requests of a
-listening protocol timed out during an operation from the implementation's observation (it has no clock)."""
+listening protocol timed out during an operation from the implementation's observation (it has no clock).
+
+Since the f-round (seeded C07-f1, C08-f1): the long real-time hold ROTATES over the exit paths of the loop (`EXIT_PATHS`,
+`exit_ops`, `long_holds`: one 6 s hold per path with a busy protocol + two with a busy manager in every quick run of C07,
+consecutive in the list = one shard each); family `order` (`order_case`): a protocol's small channel is FULL when a substream
+of it finishes negotiating, then every exit path — in the same poll of the loop or a later one —, then the protocol catches
+up; `oracle_c08` judges the ORDER per protocol (no `Oi`/`Oo`/`X` after `C`) and that a negotiated inbound substream is NOT
+LOST. The family runs in the C08, C06, C07 and C09 mixes."""
 import re
 from .common import bump
 
@@ -118,6 +125,35 @@ RUNLIKE = ("run", "sleep", "resume", "accept", "drop_rx")
 EXITED = ("ok", "err", "end")
 
 
+EXIT_PATHS = ["remote_close", "remote_goaway", "force_close", "idle", "error"]
+
+
+def exit_ops(rng, path, n, slow=None, allow_idle=True):
+    """Operations that make the loop take the exit path `path` at the next `run`: `remote_close` (yamux error / EOF after
+    an abrupt close), `remote_goaway` (yamux `None`), `force_close` (ProtocolCommand::ForceClose, sent by a protocol other
+    than the busy one where there is one), `idle` (every handle released: the command channel yields `None`; half of the
+    time with a remote substream waiting as well — then `select!` decides between the idle exit and the no-permit ERROR
+    exit of handle_yamux_substream), `error` (a substream is negotiated for a protocol that has shut down:
+    report_substream_open fails, `run_event_loop` returns Err and `start()` makes up for the close report)."""
+    if path == "idle" and not allow_idle:
+        path = "force_close"
+    if path == "error" and n < 2 and slow is not None:
+        path = "idle" if allow_idle else "remote_close"
+    if path == "force_close":
+        others = [i for i in range(n) if i != slow]
+        who = rng.choice(others) if others and rng.random() < 0.8 else rng.randrange(n)
+        return [f"force_close {who}"]
+    if path == "idle":
+        order = list(range(n))
+        rng.shuffle(order)
+        pre = [f"remote_open {rng.randrange(n)} hdr"] if rng.random() < 0.5 else []
+        return pre + [rng.choice([f"downgrade {i}", f"drop_handle {i}"]) for i in order]
+    if path == "error":
+        k = rng.choice([i for i in range(n) if i != slow] or [0])
+        return [f"drop_rx {k}", f"remote_open {k} full"]
+    return [path]
+
+
 def close_cause(rng, n, allow_idle=True):
     """Operations that end the connection: each is a different close path of the loop."""
     c = rng.choice(["remote_close", "remote_goaway", "force_close", "idle"] if allow_idle else
@@ -131,30 +167,101 @@ def close_cause(rng, n, allow_idle=True):
     return [c]
 
 
-def hold_case(rng, ms, sot=None):
-    """The C07-c1 shape: the connection ends while one protocol's (or the manager's) channel is full and STAYS full
-    for `ms` of real time; then the slow party catches up: every report must still arrive, exactly once. `ms` = 6000
-    outlasts hard-coded bounds of a few seconds; with `sot` (the one timeout a TcpConnection takes from configuration)
-    made small, 1.5 s outlasts a bound derived from configuration."""
-    ka = rng.choice(["YY", "YN", "NY", "YYY", "Y"])
+def hold_case(rng, ms, sot=None, path=None, who=None):
+    """The C07-c1 / C07-f1 shape: the connection ends — by the exit path `path` of the loop (EXIT_PATHS; random if not
+    given) — while one protocol's (or the manager's) channel is full and STAYS full for `ms` of real time; then the slow
+    party catches up: every report must still arrive, exactly once. `ms` = 6000 outlasts hard-coded bounds of a few
+    seconds (a 5 s timeout around the close report of ONE exit path is the C07-f1 shape: every path gets its own long
+    hold in every quick run); with `sot` (the one timeout a TcpConnection takes from configuration) made small, 1.5 s
+    outlasts a bound derived from configuration."""
+    path = path or rng.choice(EXIT_PATHS)
+    ka = rng.choice(["YY", "YN", "NY", "YYY"] if path == "error" else ["YY", "YN", "NY", "YYY", "Y"])
     n = len(ka)
-    who = rng.choice(["proto", "proto", "proto", "mgr"])
+    who = who or rng.choice(["proto", "proto", "proto", "mgr"])
     opts = (" cap=1" if who == "proto" else f" cap={rng.choice([1, 2])} mcap=1") + (f" sot={sot}" if sot else "")
     ops = [f"conn ka={ka}{opts}"]
     if who == "mgr":
         ops += ["pause m", "fill m"]
-        ops += close_cause(rng, n) + ["run", f"sleep {ms}", "resume m", "run"]
+        ops += exit_ops(rng, path, n) + ["run", f"sleep {ms}", "resume m", "run"]
         return ops
     slow = rng.randrange(n)
-    if rng.random() < 0.5:
+    if path == "idle" or rng.random() < 0.5:
         ops += [f"pause {slow}", f"fill {slow}"]
-        ops += close_cause(rng, n)
+        ops += exit_ops(rng, path, n, slow)
     else:
         # the channel is full of a substream the loop delivered (it holds permits: no idle close)
         ops += [f"pause {slow}", f"remote_open {slow} full", "run"]
-        ops += close_cause(rng, n, allow_idle=False)
+        ops += exit_ops(rng, path, n, slow, allow_idle=False)
     ops += ["run", f"sleep {ms}", f"resume {slow}", "run"]
     return ops
+
+
+def long_holds(rng, count):
+    """`count` long (6 s) holds, the exit path ROTATING: the first five are one per exit path with a protocol as the busy
+    party, the following ones have the manager as the busy party (paths in a random order)."""
+    plan = [(p, "proto") for p in EXIT_PATHS]
+    mgr_paths = list(EXIT_PATHS)
+    rng.shuffle(mgr_paths)
+    plan += [(p, "mgr") for p in mgr_paths]
+    if count < len(EXIT_PATHS):
+        rng.shuffle(plan)
+    return [hold_case(rng, 6000, path=plan[k % len(plan)][0], who=plan[k % len(plan)][1]) for k in range(count)]
+
+
+def order_case(rng, path=None):
+    """The C08-f1 shape: a protocol's event channel (small capacity) is FULL at the moment a substream of that protocol —
+    inbound or outbound — finishes negotiating; then the connection ends by one of the exit paths; then the protocol
+    catches up. The report of the substream must have been queued BEFORE the close report (the loop waits in that send:
+    nothing else is processed meanwhile) and must not be lost. `same`: the end of the negotiation and the cause of the exit
+    are both ready when the loop is polled (one `run`); `split`: a `run` in between."""
+    path = path or rng.choice(EXIT_PATHS)
+    ka = rng.choice(["YY", "YN", "NY", "YYY", "YNY"] if path == "error" else ["YY", "YN", "NY", "YYY", "Y", "N", "YNY"])
+    n = len(ka)
+    j = rng.randrange(n)
+    fb = rng.random() < 0.2
+    style = rng.choice(["same", "same", "split"])
+    if path in ("remote_close", "remote_goaway", "idle") and rng.random() < 0.7:
+        style = "split"
+    outbound = style == "split" and rng.random() < 0.35
+    # an outbound request is answered with the substream (`Oo<id>`) or, by a remote that refuses, with a failure (`X<id>`)
+    pol = " remote=refuse" if outbound and rng.random() < 0.5 else ""
+    head = f"conn ka={ka} cap={rng.choice([1, 1, 2])}" + (f" fb={j}:1" if fb else "") + pol
+    name = f"{j}.f1" if fb and rng.random() < 0.7 else f"{j}"
+    ops = [head, f"pause {j}", f"fill {j}"]
+    if style == "split":
+        ops += [f"local_open {j}", "run", "run"] if outbound else [f"remote_open {name} full", "run"]
+        if rng.random() < 0.3:
+            ops += [f"remote_open {name} full", "run"]          # a second one queues up behind the suspended report
+        ops += exit_ops(rng, path, n, j) + ["run"]
+    elif path == "error":
+        k = rng.choice([i for i in range(n) if i != j])
+        if rng.random() < 0.5:
+            ops += [f"drop_rx {k}", f"remote_open {name} full", f"remote_open {k} full", "run"]
+        else:
+            ops += [f"drop_rx {k}", f"remote_open {j} hdr", f"remote_open {k} hdr", "run", f"remote_continue 0 {name}",
+                    f"remote_continue 1 {k}", "run"]
+    elif path == "force_close":
+        who = rng.randrange(n)
+        if rng.random() < 0.6:
+            ops += [f"remote_open {j} hdr", "run", f"remote_continue 0 {name}", f"force_close {who}", "run"]
+        else:
+            ops += [f"remote_open {name} full", f"force_close {who}", "run"]
+    else:
+        if rng.random() < 0.5:
+            ops += [f"remote_open {j} hdr", "run", f"remote_continue 0 {name}"] + exit_ops(rng, path, n, j) + ["run"]
+        else:
+            ops += [f"remote_open {name} full"] + exit_ops(rng, path, n, j) + ["run"]
+    if rng.random() < 0.3:
+        ops.append("sleep 20")
+    ops += [f"resume {j}", "run", "run"]
+    return ops
+
+
+def order_cases(rng, count):
+    """`count` cases of the C08-f1 family, the exit path rotating (the `error` and `force_close` paths — where the end of a
+    negotiation and the exit can be handled in ONE poll of the loop — twice as often)."""
+    plan = ["error", "force_close", "remote_close", "error", "remote_goaway", "force_close", "idle"]
+    return [order_case(rng, plan[k % len(plan)]) for k in range(count)]
 
 
 def accept_hold_case(rng, ms):
@@ -494,6 +601,8 @@ def gen_cases(rng, tier, focus=None):
         cases = [list(c) for c in fixed_cases() if not any(op.startswith("sleep") for op in c)]
         cases += [dead_rx_case(rng) for _ in range(n_dead)]
         cases += [accept_case(rng) for _ in range(n_acc)]
+        # f-round: a substream finishing negotiation against a full channel, then every exit path (no real-time waits)
+        cases += order_cases(rng, {"quick": 14, "thorough": 300, "search": 20}[tier])
         cases += [random_case(rng, rng.choice([5, 8, 12])) for _ in range(n_rand)]
         return cases
     n_race = {"quick": 24, "thorough": 400, "search": 40}[tier]
@@ -504,9 +613,11 @@ def gen_cases(rng, tier, focus=None):
     if focus == "C07":
         n_span //= 2
     cases = [list(c) for c in fixed_cases()]
-    # real-time holds (kept few: each costs its wall time in one shard). C07: one 6 s hold per quick run (hard-coded
+    # real-time holds (kept few: each costs its wall time in one shard). C07: 6 s holds (hard-coded
     # bounds), a few 1.5 s holds (bounds from configuration: substream_open_timeout / connection_open_timeout = 1 s).
-    n_long = {"quick": 1, "thorough": 4, "search": 0}[tier]
+    # f-round (C07-f1): the long hold ROTATES over the exit paths of the loop — one per path (busy protocol) plus two with
+    # a busy manager in every quick run; they are consecutive in the list, so each lands in a shard of its own.
+    n_long = {"quick": 7, "thorough": 20, "search": 0}[tier]
     n_short = {"quick": 3, "thorough": 24, "search": 1}[tier]
     n_acc_hold = {"quick": 3, "thorough": 24, "search": 1}[tier]
     if focus == "C09":
@@ -514,7 +625,7 @@ def gen_cases(rng, tier, focus=None):
     if focus == "C08":
         n_long, n_short, n_acc_hold = 0, 1, 1
         n_race, n_span, n_rand = n_race // 3, n_span // 3, n_rand // 2
-    cases += [hold_case(rng, 6000) for _ in range(n_long)]
+    cases += long_holds(rng, n_long)
     cases += [hold_case(rng, 1500, sot=1000) for _ in range(n_short)]
     cases += [accept_hold_case(rng, 1500) for _ in range(n_acc_hold)]
     n_half = {"quick": 40, "thorough": 800, "search": 60}[tier]
@@ -538,6 +649,11 @@ def gen_cases(rng, tier, focus=None):
     cases += [burst_case(rng, allow_close=k > 0) for k in range(n_burst)]
     cases += [burst_case(rng, big=False) for _ in range(n_stall)]
     cases += [fallback_case(rng) for _ in range(n_fb)]
+    # f-round (C08-f1): a substream finishing negotiation against a full channel, then every exit path, then drain
+    n_order = {"quick": 28, "thorough": 600, "search": 30}[tier]
+    if focus in ("C07", "C09"):
+        n_order //= 2
+    cases += order_cases(rng, n_order)
     if focus != "C09":
         cases.append([f"arrange_race {RACE_ROUNDS[tier]}"])
     else:
@@ -957,7 +1073,15 @@ def oracle_c08(case, out):
         stream) and however many requests are pending;
     (c) a substream is reported to the protocol that owns the negotiated name, under that name: an inbound substream
         arrives at the protocol one of whose names the remote proposed, with `fallback` telling which; never with a
-        name the protocol does not have."""
+        name the protocol does not have;
+    (d) ORDER: "substream events refer to a peer that is connected" — per protocol the events of one connection are
+        `E .. Oi/Oo/X .. C`: once a protocol has been told that the connection closed no substream event (opened or
+        failed) of that connection reaches it, however full its channel was when the substream finished negotiating
+        (the loop waits in the send of the report; it is not handed to somebody who delivers it later);
+    (e) NOT LOST: an inbound substream proposing a name of a running protocol that was fully negotiated while the loop
+        was running (a `run` after the proposal left the loop running; nobody else busy, no small timeout, not reset)
+        is reported to that protocol — at the latest when it catches up — also when the connection ends afterwards
+        (judged only for negotiations that ended before any operation that can end the connection)."""
     bad = []
 
     def v(kind, msg, i):
@@ -990,6 +1114,17 @@ def oracle_c08(case, out):
         proposed.setdefault(j, {}).setdefault(f, 0)
         proposed[j][f] += 1
     got_in = {}
+    closed_at = {}        # protocol -> step of its close report
+    paused = set()
+    mgr_paused = False
+    dead = set()
+    prop = {}             # remote stream -> (protocol, fallback) of its FIRST proposal of an installed name / None
+    risk = set()          # busy protocols the loop may already be waiting for (a send to them is in progress)
+    unsettled = {}        # remote stream -> protocol: proposed in full, no `run` since
+    owed = {}             # protocol -> inbound substreams that must reach it (e)
+    oi_count = {}
+    exited = False
+    cause_seen = False
     for i, op in enumerate(case):
         if i >= len(out):
             break
@@ -1004,6 +1139,75 @@ def oracle_c08(case, out):
         t = op.split()
         if t[0] in ("pause", "fill"):
             busy_ever = True
+        # (d) order, (e) nothing lost
+        if t[0] in ("pause", "resume") and len(t) == 2 and d["ret"] == "ok":
+            if t[1] == "m":
+                mgr_paused = t[0] == "pause"
+            elif t[1].isdigit():
+                (paused.add if t[0] == "pause" else paused.discard)(int(t[1]))
+        dead |= d.get("dead", set())
+        if t[0] == "resume" and len(t) == 2 and t[1].isdigit() and d["ret"] == "ok":
+            risk.discard(int(t[1]))       # it has caught up: the loop is not waiting for it any more
+        if t[0] in ("local_open", "burst") and len(t) >= 2 and t[1].isdigit() and int(t[1]) in paused:
+            risk.add(int(t[1]))           # the answer may occupy the loop's one send to this protocol
+        if t[0] in ("force_close", "remote_close", "remote_goaway", "drop_rx", "downgrade", "drop_handle"):
+            # from here on the loop may be on an exit path (a `loop=run` afterwards can be a suspended close report)
+            cause_seen = True
+        sk = None
+        if t[0] == "remote_open" and re.match(r"^s\d+$", d["ret"]) and len(t) == 3:
+            sk = int(d["ret"][1:])
+            prop[sk] = None
+            if t[2] == "full":
+                prop[sk] = name_proto(t[1], n, fb)
+        elif t[0] == "remote_continue" and d["ret"] == "ok" and len(t) == 3 and t[1].isdigit() and prop.get(int(t[1]), 0) is None:
+            sk = int(t[1])
+            prop[sk] = name_proto(t[2], n, fb)
+        if sk is not None and prop.get(sk):
+            unsettled[sk] = prop[sk][0]
+        if t[0] == "remote_reset" and t[1:2] and t[1].isdigit():
+            unsettled.pop(int(t[1]), None)
+        if t[0] == "run" and d["ret"] == "ok":
+            if prev_loop == "run" and d["loop"] == "run" and sot is None and not d["stuck"] and not cause_seen:
+                for k, j in sorted(unsettled.items()):
+                    if j in dead:
+                        continue
+                    # certain only if the loop was not waiting in another send when the negotiation ended: nobody busy,
+                    # or only the receiver itself with nothing else on its way to it
+                    if not paused or (paused == {j} and j not in risk):
+                        owed[j] = owed.get(j, 0) + 1
+                    if j in paused:
+                        risk.add(j)
+            unsettled = {}
+        elif t[0] in RUNLIKE:
+            for j in unsettled.values():
+                risk.add(j)
+            unsettled = {}
+        for k, raw in d["praw"].items():
+            for m in raw:
+                b = base(m)
+                if b == "C":
+                    closed_at.setdefault(k, i)
+                elif b in ("Oi", "Oo", "X") and k in closed_at:
+                    what = {"Oi": "an inbound substream", "Oo": "an opened outbound substream", "X": "an open failure"}[b]
+                    v("substream-after-close", f"protocol {k} received `{m}` ({what} of this connection) AFTER it had been "
+                      f"told at step {closed_at[k]} that the connection closed: the substream event refers to a peer the "
+                      "protocol considers disconnected (the report of a negotiated substream must be queued before "
+                      "anything else the connection task does)", i)
+                    return bad
+                if b == "Oi":
+                    oi_count[k] = oi_count.get(k, 0) + 1
+        if d["loop"] in EXITED:
+            exited = True
+        if exited and t[0] in RUNLIKE:
+            lost = [k for k in sorted(owed) if k not in dead and k not in paused and k in closed_at
+                    and oi_count.get(k, 0) < owed[k]]
+            if lost:
+                k = lost[0]
+                v("substream-lost", f"{owed[k]} inbound substream(s) for protocol {k} finished negotiating while the "
+                  f"connection task was running, but protocol {k} — which has caught up with its channel and has been told "
+                  f"that the connection closed — received only {oi_count.get(k, 0)}: a negotiated substream was dropped "
+                  "instead of being reported before the close", i)
+                return bad
         k_new = 0
         if t[0] == "local_open" and d["ret"] == "ok":
             k_new = 1
@@ -1075,6 +1279,21 @@ def oracle(case, out):
 
 def stats(case, out, acc, prefix="tcploop"):
     bump(acc, prefix + ":cases")
+    if any(op.startswith("sleep ") and op[6:].isdigit() and 5000 <= int(op[6:]) <= 10000 for op in case):
+        # which exit path the long hold is about (f-round: all of them in every quick run)
+        path = ("error" if any(op.startswith("drop_rx") for op in case) else
+                "force_close" if any(op.startswith("force_close") for op in case) else
+                "remote_close" if "remote_close" in case else "remote_goaway" if "remote_goaway" in case else "idle")
+        bump(acc, f"{prefix}:long-hold:{path}:" + ("mgr" if "pause m" in case else "proto"))
+    if len(case) > 3 and case[1].startswith("pause ") and case[2].startswith("fill ") and case[1][6:] == case[2][5:] \
+            and case[1][6:].isdigit() and case[3].startswith(("remote_open", "local_open", "drop_rx")):
+        bump(acc, prefix + ":substream-negotiated-while-full")
+        j = case[1][6:]
+        for o in out:
+            d = parse(o)
+            if d and any(m in ("Oi", "Oo") for m in d["p"].get(int(j), [])) and "C" in d["p"].get(int(j), []):
+                bump(acc, prefix + ":substream-then-close-in-one-drain")
+                break
     for op, o in zip(case, out):
         t = op.split()[0]
         bump(acc, f"{prefix}:op:{t}")
